@@ -62,6 +62,25 @@ def sha_event(rng):
     return {"fn": "sha", "got": got, "want": want}
 
 
+def description_event():
+    """Beyond the property: the four public *_dataset_description() functions return the text of the shipped tables (the
+    files the documented names are extracted from)."""
+    import glob
+    import traffic_weaver.datasets as twd
+    from cachelib import DESC_DIR
+    got, want, names = [], [], []
+    for p in sorted(glob.glob(os.path.join(DESC_DIR, "*.md"))):
+        stem = os.path.splitext(os.path.basename(p))[0]
+        fn = getattr(twd, "%s_dataset_description" % stem.replace("-", "_"), None)
+        names.append(stem)
+        want.append(hashlib.sha256(open(p, encoding="utf-8").read().encode()).hexdigest())
+        try:
+            got.append(hashlib.sha256(fn().encode()).hexdigest() if fn else "no such function")
+        except Exception as ex:  # noqa
+            got.append("raised " + type(ex).__name__)
+    return {"fn": "desc", "tables": names, "got": got, "want": want}
+
+
 # --------------------------------------------------------------------------------------------------------
 def run():
     global WORLD, _ROOT
@@ -176,7 +195,9 @@ def run():
     if c.replay_path:
         rp = json.load(open(c.replay_path))
         ev = rp["event"]
-        if any(cl.startswith("C18.distinct_") for cl in rp.get("failing_clauses", [])):
+        if ev.get("fn") == "home":
+            work = []
+        elif any(cl.startswith("C18.distinct_") for cl in rp.get("failing_clauses", [])):
             # a clause that relates this load to the loads of all other documented names: replay all of those
             work = [j for j in work if j.get("tag") == "documented"]
         else:
@@ -199,6 +220,36 @@ def run():
                 c.count_nontrivial((e["name"], e["unpack"], e["mode"], e.get("prev", "")))
     if not c.replay_path:
         c.events.append(sha_event(rng))
+        c.events.append(description_event())
+    # ---- where the cache lives: the whole state graph of DataHome, every transition replayed in a scratch HOME ----------
+    home_stats = {}
+    if c.replay_path:
+        ev0 = json.load(open(c.replay_path))["event"]
+        home_progs = [{"fn": "home", "envset": ev0["envset"], "acts": [st["act"] for st in ev0["steps"]]}] if ev0.get("fn") == "home" else []
+        if home_progs:
+            c.events = []
+    else:
+        import graphcover
+        rh = c.model("MC_DataHome", "MC_DataHome.cfg", emits_all=False, workers=1)
+        edges = [j for j in rh.json_lines if "act" in j and "from" in j]
+        progs, home_stats = graphcover.cover(edges, lambda st: not st["exists"] and not st["cached"], rng, extra_walks=400 if c.thorough else 60)
+        if home_stats["reachable_states"] != rh.distinct or home_stats["edges"] < 8 * home_stats["states"]:
+            raise MachineryError("DataHome graph incomplete: %s vs %d states" % (home_stats, rh.distinct))
+        home_progs = [{"fn": "home", "envset": root["envset"], "acts": acts} for root, acts in progs]
+    if home_progs:
+        import fnexec
+        hev = c.run_cases(home_progs, fnexec.execute)
+        for e, k in zip(hev, home_progs):
+            e["meta"] = {"job": k}
+            e["neg"] = False
+            c.count_nontrivial(("home", json.dumps(k, sort_keys=True)))
+        home_stats["programs_replayed"] = len(home_progs)
+        home_stats["calls_replayed"] = sum(len(k["acts"]) for k in home_progs)
+        if not c.replay_path:
+            c18_inst = lambda e: e.get("fn") == "home" and len(e["steps"]) == 1 and e["envset"] and e["steps"][0]["act"] == {"k": "fetch", "arg": "none"}
+            c.negative_from(hev, c18_inst, lambda e: e["steps"][0].__setitem__("cached", ["default"]), "C18.data_home")
+            c.negative_from(hev, lambda e: e.get("fn") == "home" and e["steps"] and e["steps"][-1]["act"]["k"] == "get",
+                            lambda e: e["steps"][-1].__setitem__("ret", "other"), "impl.home_step.get")
 
     # ---- negative controls ---------------------------------------------------------------------------------
     if not c.replay_path:
@@ -249,7 +300,7 @@ def run():
                         "registry_invariants_violated": sorted(tlc_violated | set(witnesses) - {"FilesInjective"}),
                         "registry_witnesses": {k: v[:40] for k, v in witnesses.items()},
                         "crosstalk_pairs_from_tlc": [list(p) for p in crosstalk],
-                        "traces_validated_against_impl": len(c.events)}
+                        "traces_validated_against_impl": len(c.events), "data_home_state_graph": home_stats}
     c.assumptions = ["TLC 1.8 and CommunityModules Json/IOUtils",
                      "registry = documented names (markdown tables) x arguments captured from load_dataset with "
                      "load_csv_dataset_from_remote / load_csv_dataset_from_resources stubbed",
